@@ -23,7 +23,7 @@ MiscClauses(e) ==
 
 Recompute(e) ==
   LET r == SpecResult(e)
-      a == AcsFraction(EvComps(e), FacOf(e), r, Zero)
+      a == AcsFraction(EvComps(e), FacOf(e), r, LowScopOf(EvComps(e)))
       o == e.out.acs
   IN IF ~a.ok THEN (IF ~o.ok /\ o.err = a.err THEN {} ELSE {"number_where_error_expected:" \o a.class})
      ELSE IF ~o.ok THEN {"error_where_number_expected:" \o o.err}
